@@ -209,6 +209,15 @@ TARGETS["encode_mgs"] = dict(
                           ("pi_vars", VarDictK("fPi", K2))],
                  calls={"self.weight_type == int": ("weight_is_int", BOOL)}))
 
+# ---- C14: AbstractWalkModelDiGraph.get_solution_walks with the three methods it calls (expanded in place): residual multigraph of a layer as a dict
+# of adjacency lists (one entry per traversal), greedy trail from the source, closed walks spliced in at the first occurrence of a stack vertex
+_WS = Dict(Tuple(NODE, NODE, INT), NUM)
+TARGETS["solution_walks"] = dict(
+    file="flowpaths/abstractwalkmodeldigraph.py", cls="AbstractWalkModelDiGraph", func="get_solution_walks", params=[SELFOBJ], defaults=[], ret=List(List(NODE)),
+    selfobj=dict(inputs=[("edge_vars_sol", _WS), ("k", INT)], outputs=[("edge_vars_sol", _WS)],
+                 calls={"self.solver.get_values(self.edge_vars)": ("solver_edge_values", _WS), "self.G.nodes()": ("nodes", List(NODE)),
+                        "self.G.edges()": ("edges", List(EDGE)), "self.G.source": ("source", NODE), "self.G.sink": ("sink", NODE)}))
+
 # a query of stDiGraph on data networkx computed (condensation): the expressions below are inputs of the model
 TARGETS["is_scc_edge"] = dict(file="flowpaths/stdigraph.py", cls="stDiGraph", func="is_scc_edge", params=[SELFOBJ, NODE, NODE], defaults=[], ret=BOOL,
                               selfobj=dict(inputs=[], outputs=[],
@@ -364,6 +373,7 @@ def eqb(t, node=None):
         return "(py_pair_eqb %s %s)" % (eqb(t[1], node), eqb(t[2], node))
     if t[0] == "Tuple" and len(t) == 4:        # (a, b, c) is ((a, b), c)
         return "(py_pair_eqb (py_pair_eqb %s %s) %s)" % (eqb(t[1], node), eqb(t[2], node), eqb(t[3], node))
+    if t[0] == "List": return "(py_list_eqb %s)" % eqb(t[1], node)
     raise Unsupported("equality / membership on values of type %s" % show(t), node)
 
 
@@ -489,7 +499,7 @@ class Fn:
                 if isinstance(n, ast.Name) and isinstance(n.ctx, ast.Store): out.add(n.id)
             return out
 
-        def instantiate(call, want_value):
+        def instantiate(call, want_value, assign_to=None):
             """the callee's body with its own names made unique and its parameters bound to the arguments; (statements, value expression or None)"""
             m = call.func.attr; f2 = methods[m]
             if depth >= 3: raise Unsupported("method calls nested deeper than 3 (recursion?)", call)
@@ -511,6 +521,11 @@ class Fn:
             if body and isinstance(body[0], ast.Expr) and isinstance(body[0].value, ast.Constant) and isinstance(body[0].value.value, str): body = body[1:]
             ren = {n: "%s__%s" % (m.lstrip("_"), n) for n in bound_names(f2)}
             selfname = a2.args[0].arg
+            stored = {n.id for x in body for n in ast.walk(x) if isinstance(n, ast.Name) and isinstance(n.ctx, ast.Store)}
+            byname = set()
+            for n in names:         # a parameter the callee never rebinds, given a plain name: the callee works on the caller's object itself
+                if isinstance(bind[n], ast.Name) and n not in stored and bind[n].id != me:
+                    ren[n] = bind[n].id; byname.add(n)
 
             class R(ast.NodeTransformer):
                 def visit_Name(self_, n):
@@ -522,8 +537,24 @@ class Fn:
             body = [R().visit(x) for x in body]
             pre = []
             for n in names:
+                if n in byname: continue
                 asg = ast.Assign(targets=[ast.Name(id=ren[n], ctx=ast.Store())], value=bind[n]); ast.copy_location(asg, call); ast.fix_missing_locations(asg)
                 pre.append(asg)
+            if assign_to is not None:          # x = self.m(..): every `return E` of the callee is in tail position and becomes `x = E`
+                def tail(stmts):
+                    if not stmts: raise Unsupported("call of self.%s: a path through the callee ends without `return`" % m, call)
+                    last = stmts[-1]
+                    if isinstance(last, ast.Return):
+                        if last.value is None: raise Unsupported("call of self.%s: bare return where a value is needed" % m, call)
+                        asg = ast.Assign(targets=[ast.Name(id=assign_to, ctx=ast.Store())], value=last.value); ast.copy_location(asg, last); ast.fix_missing_locations(asg)
+                        stmts[-1] = asg
+                    elif isinstance(last, ast.If) and last.orelse:
+                        tail(last.body); tail(last.orelse)
+                    else: raise Unsupported("call of self.%s: the callee does not end in `return <value>` on every path" % m, call)
+                tail(body)
+                if any(isinstance(n, ast.Return) for x in body for n in ast.walk(x)):
+                    raise Unsupported("call of self.%s: a `return` of the callee is not in tail position" % m, call)
+                return pre + body, None
             rets = [n for x in body for n in ast.walk(x) if isinstance(n, ast.Return)]
             if want_value:
                 if len(body) != 1 or not isinstance(body[0], ast.Return) or body[0].value is None or names:
@@ -547,6 +578,11 @@ class Fn:
         def walk(stmts):
             out = []
             for st in stmts:
+                if isinstance(st, ast.Assign) and len(st.targets) == 1 and isinstance(st.targets[0], ast.Name) and is_self_call(st.value):
+                    new, _ = instantiate(st.value, False, assign_to=st.targets[0].id)
+                    sub = ast.FunctionDef(name=fdef.name, args=fdef.args, body=new, decorator_list=[], returns=None)
+                    out += fn_self.expand_method_calls(sub, depth + 1).body
+                    continue
                 if isinstance(st, ast.Expr) and is_self_call(st.value):
                     new, _ = instantiate(st.value, False)
                     sub = ast.FunctionDef(name=fdef.name, args=fdef.args, body=new, decorator_list=[], returns=None)
@@ -570,6 +606,35 @@ class Fn:
         if (isinstance(e, ast.Call) and isinstance(e.func, ast.Attribute) and e.func.attr in ("append", "add") and isinstance(e.func.value, ast.Name)
                 and len(e.args) == 1 and not e.keywords):
             return e.func.value.id, e.args[0]
+        return None
+
+    @staticmethod
+    def sub_store(t):
+        """('item', name, key node) for `name[key] = ..`, ('insert', name, index node) for `name[i:i] = ..`, else None"""
+        if isinstance(t, ast.Subscript) and isinstance(t.value, ast.Name):
+            if isinstance(t.slice, ast.Slice):
+                sl = t.slice
+                if sl.step is None and sl.lower is not None and sl.upper is not None and ast.dump(sl.lower) == ast.dump(sl.upper):
+                    return ("insert", t.value.id, sl.lower)
+                return None
+            return ("item", t.value.id, t.slice)
+        return None
+
+    @staticmethod
+    def item_append(e):
+        """(dict name, key node, argument) for `name[key].append(arg)`"""
+        if (isinstance(e, ast.Call) and isinstance(e.func, ast.Attribute) and e.func.attr == "append" and len(e.args) == 1 and not e.keywords
+                and isinstance(e.func.value, ast.Subscript) and isinstance(e.func.value.value, ast.Name) and not isinstance(e.func.value.slice, ast.Slice)):
+            return e.func.value.value.id, e.func.value.slice, e.args[0]
+        return None
+
+    @staticmethod
+    def pop_call(e):
+        """('list', name, None) for `name.pop()`, ('item', name, key node) for `name[key].pop()`"""
+        if isinstance(e, ast.Call) and isinstance(e.func, ast.Attribute) and e.func.attr == "pop" and not e.args and not e.keywords:
+            v = e.func.value
+            if isinstance(v, ast.Name): return ("list", v.id, None)
+            if isinstance(v, ast.Subscript) and isinstance(v.value, ast.Name) and not isinstance(v.slice, ast.Slice): return ("item", v.value.id, v.slice)
         return None
 
     def self_attr(self, e):
@@ -619,9 +684,19 @@ class Fn:
                 if isinstance(s, ast.Assign) and len(s.targets) == 1 and self.self_attr(s.targets[0]) is not None \
                         and self.s_in.get(self.self_attr(s.targets[0])) == WRAP:
                     continue          # self.solver = <fresh wrapper> (checked in stmt)
+                if isinstance(s, ast.Assign) and len(s.targets) == 1 and self.sub_store(s.targets[0]) is not None:
+                    n = self.sub_store(s.targets[0])[1]           # d[k] = v / l[i:i] = c : the container is changed in place
+                    if n in self.params: raise Unsupported("assignment into a parameter (the caller's object would be mutated)", s)
+                    self.mutated.add(n); self.assign_count[n] = self.assign_count.get(n, 0) + 2
+                    continue
                 if isinstance(s, ast.Assign):
                     if len(s.targets) != 1 or not isinstance(s.targets[0], ast.Name):
                         raise Unsupported("assignment target (only `name = expr`)", s)
+                    pc = self.pop_call(s.value)
+                    if pc is not None:          # x = l.pop() / x = d[k].pop(): the value has a side effect on the container
+                        if pc[1] in self.params: raise Unsupported("pop from a parameter (the caller's list would be mutated)", s)
+                        self.mutated.add(pc[1]); self.assign_count[pc[1]] = self.assign_count.get(pc[1], 0) + 2
+                        self.mutated.add(s.targets[0].id)          # never a let-binding
                     n = s.targets[0].id
                     if n not in self.locals: self.locals.append(n)
                     if inloop: self.loop_assigned.add(n)
@@ -634,6 +709,10 @@ class Fn:
                     if s.target.id not in self.locals: self.locals.append(s.target.id)
                     self.mutated.add(s.target.id)
                     self.assign_count[s.target.id] = self.assign_count.get(s.target.id, 0) + 2
+                elif isinstance(s, ast.Expr) and self.item_append(s.value) is not None:
+                    n = self.item_append(s.value)[0]
+                    if n in self.params: raise Unsupported("append into a parameter (the caller's object would be mutated)", s)
+                    self.mutated.add(n); self.assign_count[n] = self.assign_count.get(n, 0) + 2
                 elif isinstance(s, ast.Expr) and self.append_call(s.value) is not None:
                     n = self.append_call(s.value)[0]
                     if n in self.params: raise Unsupported("append to a parameter (the caller's list would be mutated)", s)
@@ -784,10 +863,16 @@ class Fn:
         if op not in NUMOPS[t]: raise Unsupported("%s on %s" % (op, show(t)), e)
         return "(%s %s %s)" % (NUMOPS[t][op], x, y), t, g
 
+    def truth(self, e, env):
+        """a condition: a boolean, or a list / dict (true iff non-empty)"""
+        t, ty, g = self.expr(e, env)
+        if ty == BOOL: return t, g
+        if ty[0] in ("List", "Dict") and ty[0] != "Opt": return "(negb (py_list_is_empty %s))" % t, g
+        raise Unsupported("condition of type %s (only booleans and the emptiness of lists / dicts)" % show(ty), e)
+
     def e_UnaryOp(self, e, env):
         if isinstance(e.op, ast.Not):
-            t, ty, g = self.expr(e.operand, env)
-            if ty != BOOL: raise Unsupported("`not` on a non-boolean (%s)" % show(ty), e)
+            t, g = self.truth(e.operand, env)
             return "(negb %s)" % t, BOOL, g
         if isinstance(e.op, ast.USub) and isinstance(e.operand, ast.Constant) and isinstance(e.operand.value, int) \
                 and not isinstance(e.operand.value, bool):
@@ -804,12 +889,17 @@ class Fn:
         parts = [self.expr(x, env) for x in e.values]
         for i, (t, ty, g) in enumerate(parts):
             if ty != BOOL: raise Unsupported("and/or on a non-boolean (%s)" % show(ty), e.values[i])
-            if i > 0 and g: raise Unsupported("partial operation evaluated conditionally (right operand of and/or)", e.values[i])
         f = "andb" if isinstance(e.op, ast.And) else "orb"
         term = parts[-1][0]
         for p in reversed(parts[:-1]):
             term = "(%s %s %s)" % (f, p[0], term)
-        return term, BOOL, parts[0][2]
+        # an operand is evaluated only if all the earlier ones were true (and) / false (or): its partial operations are conditioned on that
+        guards = list(parts[0][2]); pre = None
+        for i in range(1, len(parts)):
+            c = parts[i - 1][0] if isinstance(e.op, ast.And) else "(negb %s)" % parts[i - 1][0]
+            pre = c if pre is None else "(andb %s %s)" % (pre, c)
+            guards += [("(andb %s %s)" % (pre, x), ex) for x, ex in parts[i][2]]
+        return term, BOOL, guards
 
     def e_Compare(self, e, env):
         if len(e.ops) != 1: raise Unsupported("chained comparison", e)
@@ -987,6 +1077,28 @@ class Fn:
             if isinstance(test.ops[0], ast.Gt): return ("len0", ast.dump(test.left)), pol
             if isinstance(test.ops[0], ast.Eq): return ("len0", ast.dump(test.left)), not pol
         return ("test", ast.dump(test)), pol
+
+    def e_DictComp(self, e, env):
+        """{k: VALUE for k, x in D.items()}: the same keys in the same order, new values"""
+        if len(e.generators) != 1 or e.generators[0].ifs or e.generators[0].is_async: raise Unsupported("dict comprehension form", e)
+        g = e.generators[0]
+        if not (isinstance(g.iter, ast.Call) and isinstance(g.iter.func, ast.Attribute) and g.iter.func.attr == "items" and not g.iter.args and not g.iter.keywords
+                and isinstance(g.target, ast.Tuple) and len(g.target.elts) == 2 and all(isinstance(x, ast.Name) for x in g.target.elts)
+                and isinstance(e.key, ast.Name) and e.key.id == g.target.elts[0].id):
+            raise Unsupported("dict comprehension (only {k: f(k, x) for k, x in d.items()})", e)
+        d, dty, dg = self.expr(g.iter.func.value, env)
+        if dty[0] != "Dict": raise Unsupported("items() of a value of type %s" % show(dty), e)
+        kn, xn = g.target.elts[0].id, g.target.elts[1].id
+        for v in (kn, xn):
+            if v in self.locals or v in self.params or v in env["bound"]: raise Unsupported("comprehension variable %r shadows another name" % v, e)
+        ck = "c%d" % env["ncomp"][0]; cx = "c%d" % (env["ncomp"][0] + 1); env["ncomp"][0] += 2
+        env["bound"][kn] = (ck, dty[1], None); env["bound"][xn] = (cx, dty[2], None)
+        try: t, ty, tg = self.expr(e.value, env)
+        finally: del env["bound"][kn]; del env["bound"][xn]
+        if tg: raise Unsupported("partial operation in a dict comprehension", e)
+        if ty[0] == "List" and not (isinstance(e.value, ast.Subscript) and isinstance(e.value.slice, ast.Slice)) and not isinstance(e.value, (ast.List, ast.ListComp)):
+            raise Unsupported("dict comprehension whose values are lists that are not fresh copies (aliasing is not modelled)", e)
+        return "(map (fun '(%s, %s) => (%s, %s)) %s)" % (ck, cx, ck, t, d), Dict(dty[1], ty), dg
 
     def e_IfExp(self, e, env):
         t, ty, g = self.expr(e.test, env)
@@ -1188,6 +1300,11 @@ class Fn:
                 if ty not in (INT, NUM): raise Unsupported("log2 of %s" % show(ty), e)
                 q = coerce(t, ty, NUM, e)
                 return "(py_ceil_log2 %s)" % q, BITS, g + [("(Qle_bool %s (0#1)%%Q)" % q, "ValueError")]      # log2(x <= 0): math domain error
+            if n == "round" and len(e.args) == 1 and not e.keywords:
+                t, ty, g = self.expr(e.args[0], env)
+                if ty == INT: return t, INT, g
+                if ty != NUM: raise Unsupported("round of a value of type %s" % show(ty), e)
+                return "(py_round %s)" % t, INT, g           # a float: nearest integer, ties to even
             if n == "enumerate" and len(e.args) == 1 and not e.keywords:
                 t, ty, g = self.expr(e.args[0], env)
                 if ty[0] != "List": raise Unsupported("enumerate of a value of type %s" % show(ty), e)
@@ -1285,6 +1402,14 @@ class Fn:
                     if vty != NODE: raise Unsupported("%s of a non-node" % m, e)
                     return "(py_%s %s %s)" % (m, recv, v), INT, rg + vg
                 raise Unsupported("graph method call .%s with these arguments" % m, e)
+            if rty[0] == "List" and m == "index" and len(e.args) == 1 and not kw:
+                x, xty, xg = self.expr(e.args[0], env)
+                ety = join(xty, rty[1], e)
+                if ety != rty[1]: raise Unsupported("index of a %s in a list of %s" % (show(xty), show(rty[1])), e)
+                q = eqb(ety, e)
+                return "(py_index_of %s %s %s)" % (q, x, recv), INT, rg + xg + [("(negb (py_mem %s %s %s))" % (q, x, recv), "ValueError")]
+            if rty[0] == "Dict" and m == "items" and not e.args and not kw: return recv, List(Tuple(rty[1], rty[2])), rg
+            if rty[0] == "Dict" and m == "values" and not e.args and not kw: return "(py_dict_values %s)" % recv, List(rty[2]), rg
             if m == "get" and not kw:
                 if rty == EDATA:
                     if not (1 <= len(e.args) <= 2): raise Unsupported("get arity", e)
@@ -1537,6 +1662,9 @@ class Fn:
                 if isinstance(n.func, ast.Name) and n.func.id == "len" and len(n.args) == 1 and isinstance(n.args[0], ast.Name): return
                 if self.append_call(n) is not None:
                     walk(n.args[0]); return
+                if isinstance(n.func, ast.Attribute) and n.func.attr in ("pop", "index") and isinstance(n.func.value, ast.Name):
+                    for a_ in n.args: walk(a_)          # the receiver is read / shortened, no new reference to it is created
+                    return
             if isinstance(n, ast.Compare) and len(n.ops) == 1 and isinstance(n.ops[0], (ast.In, ast.NotIn)):
                 walk(n.left)
                 if not isinstance(n.comparators[0], ast.Name): walk(n.comparators[0])
@@ -1606,6 +1734,58 @@ class Fn:
             final = env["final"].get(n, (kind, ety))
             a = self.assign_to(n, "(app (%s s) [%s])" % (self.xname[n], coerce(t, ty, final[1], s)), (kind, ety), env, s)
             return self.guarded(g, a), True
+        if isinstance(s, ast.Expr) and self.item_append(s.value) is not None:           # d[k].append(v)
+            n, knode, arg = self.item_append(s.value)
+            if n not in self.locals or n not in env["defined"]: raise Unsupported("%r[..].append where %r may be unassigned / is not a local" % (n, n), s)
+            dty = env["vt"][n]
+            if dty[0] != "Dict" or dty[2][0] != "List": raise Unsupported("item append on a value of type %s" % show(dty), s)
+            k, kty, kg = self.expr(knode, env); v, vty, vg = self.expr(arg, env)
+            if kty != dty[1]: raise Unsupported("dict key of type %s, expected %s" % (show(kty), show(dty[1])), s)
+            ety = join(dty[2][1], vty, s)
+            if ety[0] in ("List", "Dict", "Set"): raise Unsupported("append of a mutable value into a dict of lists (aliasing is not modelled)", s)
+            q = eqb(kty, s); d = "(%s s)" % self.xname[n]
+            env["vt"][n] = Dict(dty[1], List(ety))
+            return self.guarded(kg + vg + [("(negb (py_dict_mem %s %s %s))" % (q, d, k), "KeyError")],
+                                "py_assign (fun s => set_%s (py_dict_set %s %s %s (app (py_dict_get %s %s %s []) [%s])) s)" % (self.xname[n], q, d, k, q, d, k, coerce(v, vty, ety, s))), True
+        if isinstance(s, ast.Assign) and len(s.targets) == 1 and self.sub_store(s.targets[0]) is not None:
+            kind, n, inode = self.sub_store(s.targets[0])
+            if n not in self.locals or n not in env["defined"]: raise Unsupported("store into %r where it may be unassigned / is not a local" % n, s)
+            cty = env["vt"][n]
+            if kind == "item":                                                   # d[k] = v
+                if cty[0] != "Dict": raise Unsupported("item assignment on a value of type %s" % show(cty), s)
+                k, kty, kg = self.expr(inode, env); v, vty, vg = self.expr(s.value, env)
+                if vty[0] in ("List", "Dict", "Set") and not isinstance(s.value, (ast.List, ast.ListComp)) \
+                        and not (isinstance(s.value, ast.Subscript) and isinstance(s.value.slice, ast.Slice)):
+                    raise Unsupported("a dict value that is not a fresh list (aliasing is not modelled)", s)
+                nk = join(cty[1], kty, s); nv = join(cty[2], vty, s)
+                env["vt"][n] = Dict(nk, nv)
+                final = env["final"].get(n, Dict(nk, nv))
+                return self.guarded(kg + vg, "py_assign (fun s => set_%s (py_dict_set %s (%s s) %s %s) s)" % (self.xname[n], eqb(nk, s), self.xname[n], k, coerce(v, vty, final[2], s))), True
+            if cty[0] != "List": raise Unsupported("slice assignment on a value of type %s" % show(cty), s)      # l[i:i] = c
+            if n in env["aliased"] or env["iterating"] & {n}: raise Unsupported("slice assignment into %r while another reference may exist / while iterating over it" % n, s)
+            i, ity, ig = self.expr(inode, env); c, cty2, cg = self.expr(s.value, env)
+            if ity != INT or cty2[0] != "List" or join(cty[1], cty2[1], s) != cty[1]: raise Unsupported("slice assignment l[i:i] = c with i : %s, c : %s" % (show(ity), show(cty2)), s)
+            return self.guarded(ig + cg, "py_assign (fun s => set_%s (py_insert_at (%s s) %s %s) s)" % (self.xname[n], self.xname[n], i, c)), True
+        if isinstance(s, ast.Assign) and len(s.targets) == 1 and isinstance(s.targets[0], ast.Name) and self.pop_call(s.value) is not None:
+            kind, cn, knode = self.pop_call(s.value); x = s.targets[0].id           # x = l.pop() / x = d[k].pop()
+            if cn not in self.locals or cn not in env["defined"]: raise Unsupported("pop from %r where it may be unassigned / is not a local" % cn, s)
+            if cn in env["aliased"] or env["iterating"] & {cn}: raise Unsupported("pop from %r while another reference may exist / while iterating over it" % cn, s)
+            cty = env["vt"][cn]; cf = "(%s s)" % self.xname[cn]
+            if kind == "list":
+                if cty[0] != "List": raise Unsupported("pop on a value of type %s" % show(cty), s)
+                ety = cty[1]; lst = cf; g = [("(py_list_is_empty %s)" % lst, "IndexError")]
+                upd = "set_%s (py_pop_rest %s)" % (self.xname[cn], lst)
+            else:
+                if cty[0] != "Dict" or cty[2][0] != "List": raise Unsupported("item pop on a value of type %s" % show(cty), s)
+                k, kty, kg = self.expr(knode, env)
+                if kty != cty[1]: raise Unsupported("dict key of type %s, expected %s" % (show(kty), show(cty[1])), s)
+                q = eqb(kty, s); ety = cty[2][1]; lst = "(py_dict_get %s %s %s [])" % (q, cf, k)
+                g = kg + [("(negb (py_dict_mem %s %s %s))" % (q, cf, k), "KeyError"), ("(py_list_is_empty %s)" % lst, "IndexError")]
+                upd = "set_%s (py_dict_set %s %s %s (py_pop_rest %s))" % (self.xname[cn], q, cf, k, lst)
+            if ety[0] in ("List", "Dict", "Set") or has_bot(ety): raise Unsupported("pop of an element of type %s" % show(ety), s)
+            env["vt"][x] = join(env["vt"].get(x, BOT), ety, s); env["defined"] = env["defined"] | {x}
+            # the popped value is read from the state BEFORE the container is shortened
+            return self.guarded(g, "py_assign (fun s => let v_ := py_pop_value %s %s in set_%s v_ (%s s))" % (dflt(ety), lst, self.xname[x], upd)), True
         if isinstance(s, ast.Expr):
             if isinstance(s.value, ast.Constant) and isinstance(s.value.value, str): return None, True   # docstring / string statement
             if self.emits and self.self_call(s.value, env) is not None:
@@ -1623,13 +1803,14 @@ class Fn:
             if not env["inloop"]: raise Unsupported("break outside a loop", s)
             return "py_raise BreakSignal", False
         if isinstance(s, ast.While):
-            t, ty, g = self.expr(s.test, env)
-            if ty != BOOL: raise Unsupported("condition of type %s" % show(ty), s.test)
-            if g: raise Unsupported("partial operation in a while condition", s.test)
+            t, g = self.truth(s.test, env)
             d0 = env["defined"]; inloop0 = env["inloop"]
             env["inloop"] = True; env["aliased"] |= self.alias_scan(s.body)
             b, _ = self.block(s.body, env)
             env["defined"] = d0; env["inloop"] = inloop0
+            if g:       # the condition may raise: it is evaluated at the head of every iteration, leaving the loop like a `break` when it is false
+                head = self.guarded(g, "py_if (fun s => (negb %s))\n%s\n%s" % (t, self.ind("py_raise BreakSignal"), self.ind("py_skip")))
+                return "py_while fuel (fun s => true)\n%s" % self.ind("py_seq\n%s\n%s" % (self.ind(head), self.ind(b))), True
             return "py_while fuel (fun s => %s)\n%s" % (t, self.ind(b)), True
         if isinstance(s, ast.Assign) and len(s.targets) == 1 and self.self_attr(s.targets[0]) is not None and self.s_in.get(self.self_attr(s.targets[0])) == WRAP:
             # self.solver = sw.SolverWrapper(**self.solver_options): a fresh, empty wrapper — exactly the state the emitter starts from.
@@ -1709,8 +1890,7 @@ class Fn:
             env["ret"][0] = ret0
             return "py_catch_return\n%s" % self.ind(b), True
         if isinstance(s, ast.If):
-            t, ty, g = self.expr(s.test, env)
-            if ty != BOOL: raise Unsupported("condition of type %s (truthiness of non-booleans is not translated)" % show(ty), s.test)
+            t, g = self.truth(s.test, env)
             d0 = env["defined"]; al0 = set(env["aliased"])
             # `self.<input> is None` / `is not None`: the other branch knows the value
             nar = None
@@ -1866,7 +2046,8 @@ class Fn:
             for c in self.callees:
                 L.append("From FPGen Require Gen_%s." % c)
         else:
-            L.append("From FP Require Import PyRt.")
+            lin = set(re.findall(r"^(?:Definition|Fixpoint)\s+(\w+)", open(os.path.join(os.path.dirname(os.path.dirname(os.path.abspath(__file__))), "coq", "theories", "PyLin.v")).read(), re.M))
+            L.append("From FP Require Import PyRt." if not (lin & set(re.findall(r"\w+", body))) else "From FP Require Import Lin PyRt PyLin.")
         L.append("")
         order = self.locals_in_field_order
         fields = [(self.xname[n], gty(vt[n])) for n in order]
@@ -1886,6 +2067,9 @@ class Fn:
             # for the proof scripts: reduce projections of updated states, whatever fields this version of the source needs
             L.append("Ltac gen_simpl := cbn [%s emit_out fst snd]." % " ".join([f for f, _ in fields] + ["set_" + f for f, _ in fields]))
             L.append("Tactic Notation \"gen_simpl\" \"in\" hyp(H) := cbn [%s emit_out fst snd] in H." % " ".join([f for f, _ in fields] + ["set_" + f for f, _ in fields]))
+        else:
+            L.append("Ltac gen_simpl := cbn [%s fst snd]." % " ".join([f for f, _ in fields] + ["set_" + f for f, _ in fields]))
+            L.append("Tactic Notation \"gen_simpl\" \"in\" hyp(H) := cbn [%s fst snd] in H." % " ".join([f for f, _ in fields] + ["set_" + f for f, _ in fields]))
         gparams = [(self.aname[p], gty(self.ptype[p])) for p in self.params if self.ptype[p] not in ERASED]
         gparams += [("in_" + a, gty(ty)) for a, ty in (self.selfobj["inputs"] if self.selfobj else []) if ty not in ERASED]
         gparams += [("in_" + nm, gty(ty)) for nm, ty in self.s_extra]
@@ -1967,7 +2151,11 @@ REJECT = {
     "self call in a non-emitter": "seq.add_constraint(0)\nreturn 0",
     "float constant": "r = 0.5\nreturn r",
     "float(inf)": "r = float(\"inf\")\nreturn 0",
-    "truthiness": "r = 0\nif seq:\n    r = 1\nreturn r",
+    "truthiness of a number": "r = 0\nif len(seq):\n    r = 1\nreturn r",
+    "pop from a parameter": "x = seq.pop()\nreturn 0",
+    "item assignment into a parameter": "edge_lengths[(0, 0)] = 1\nreturn 0",
+    "slice assignment with different bounds": "a = [0]\na[0:1] = [1]\nreturn 0",
+    "dict value that is not a fresh list": "a = [0]\nd = {}\nd[0] = a\nreturn 0",
     "partial operation in a conditional expression": "r = edge_lengths[(0, 0)] if len(seq) > 0 else 0\nreturn 0",
     "chained comparison": "r = 0\nif 0 < len(seq) < 3:\n    r = 1\nreturn r",
     "unknown call": "r = abs(0)\nreturn r",
@@ -1989,7 +2177,7 @@ REJECT = {
     "nested def": "def g():\n    return 0\nreturn 0",
     "print": "print(seq)\nreturn 0",
     "walrus": "r = 0\nif (n := len(seq)) > 0:\n    r = n\nreturn r",
-    "guard under or": "r = 0\nfor e in seq:\n    if e in edge_lengths or edge_lengths[e] > 0:\n        r = 1\nreturn r",
+    "and of a non-boolean": "r = 0\nfor e in seq:\n    if e in edge_lengths and edge_lengths[e]:\n        r = 1\nreturn r",
     "mixed types": "r = 0\nr = seq\nreturn 0",
     "wrong return type": "return seq",
     "no return": "r = 0",
